@@ -71,7 +71,7 @@ func runC12RpcChild(rc *runCtx) error {
 	}
 	defer os.RemoveAll(tmp)
 	host := "localhost:" + strconv.Itoa(port)
-	node, err := cluster.NewNode(cluster.ClusterNodeConfig{
+	node, err := startNode(cluster.ClusterNodeConfig{
 		RootDir: tmp, RpcHost: "localhost", RpcPort: port, RpcTimeout: 5, RpcRetries: 1, Servers: []string{host},
 		ShardManager: cluster.ShardManagerConfig{RootDir: filepath.Join(tmp, "shard-root"), ShardTimeout: 1, MaxCacheSize: -1},
 		MaxShardSize: 1 << 30, MaxShardPointCount: 1000, MaxSearchLimit: 75,
